@@ -92,18 +92,24 @@ def _parse(output):
     return res
 
 
-def run_harnesses(pid, harnesses, tier, cov, cmds, scratch_root):
-    out = {"violations": [], "inconclusive": []}
-    scratch = os.path.join(scratch_root, "kx-%s-%d" % (pid, os.getpid()))
-    t0 = time.time()
+_KCACHE = {}      # harness -> {"hr": parsed result or None, "concrete": str or None, "cmd": str, "problem": str or None}
+
+
+def prefetch(harnesses, scratch_root):
+    """run the given harnesses in ONE cargo kani invocation on a scratch copy of the current tree and cache the results"""
+    todo = [h for h in harnesses if h not in _KCACHE]
+    if not todo:
+        return
+    scratch = os.path.join(scratch_root, "kx-%d" % os.getpid())
     try:
         try:
             dst, appended = _prepare(scratch)
         except (FileNotFoundError, subprocess.CalledProcessError) as e:
-            out["inconclusive"].append("kx: %s" % e)
-            return out
+            for h in todo:
+                _KCACHE[h] = {"hr": None, "concrete": None, "cmd": "", "problem": "kx: %s" % e}
+            return
         cmd = ["cargo", "kani", "-Z", "stubbing", "-Z", "function-contracts", "-j", "8", "--output-format", "terse"]
-        for h in harnesses:
+        for h in todo:
             cmd += ["--harness", h]
         # dependency build cache shared between runs (only third-party crates are reused: the scratch copy of btdht has a
         # fresh path every run, so the crate under proof is always rebuilt from /repo's current working tree)
@@ -113,55 +119,79 @@ def run_harnesses(pid, harnesses, tier, cov, cmds, scratch_root):
         lock = open(os.path.join(scratch_root, "kani.lock"), "w")
         fcntl.flock(lock, fcntl.LOCK_EX)
         try:
-            r = subprocess.run(cmd, cwd=dst, capture_output=True, text=True, timeout=3000, env=env)
-        except subprocess.TimeoutExpired:
-            out["inconclusive"].append("kx: cargo kani timeout")
-            return out
+            try:
+                r = subprocess.run(cmd, cwd=dst, capture_output=True, text=True, timeout=6000, env=env)
+            except subprocess.TimeoutExpired:
+                for h in todo:
+                    _KCACHE[h] = {"hr": None, "concrete": None, "cmd": " ".join(cmd), "problem": "kx: cargo kani timeout"}
+                return
+            cmdtxt = "CARGO_NET_OFFLINE=true " + " ".join(cmd) + "   # in a scratch copy of /repo with kx/harness/* appended"
+            text = r.stdout + "\n" + r.stderr
+            res = _parse(text)
+            if not res:
+                # build failure / compiler crash in the scratch copy: renamed item, changed signature, Kani limit -> inconclusive
+                msg = "kx: kani produced no harness result (compile error in harness against the current tree, or a Kani compiler limit): " + text[-1200:]
+                for h in todo:
+                    _KCACHE[h] = {"hr": None, "concrete": None, "cmd": cmdtxt, "problem": msg}
+                return
+            for h in todo:
+                hr = res.get(h)
+                concrete = None
+                if hr is not None and hr["status"] not in (None, "SUCCESSFUL"):
+                    real = [f for f in hr["failed"] if "unwinding assertion" not in f]
+                    if real:
+                        concrete = _playback(dst, h, env)
+                _KCACHE[h] = {"hr": hr, "concrete": concrete, "cmd": cmdtxt, "problem": None if hr is not None and hr["status"] is not None else "kx: no result for harness %s" % h}
         finally:
             fcntl.flock(lock, fcntl.LOCK_UN)
             lock.close()
-        cmds.append("CARGO_NET_OFFLINE=true " + " ".join(cmd) + "   # in a scratch copy of /repo with kx/harness/* appended")
-        text = r.stdout + "\n" + r.stderr
-        res = _parse(text)
-        if not res:
-            # build failure in the scratch copy: renamed item / changed signature -> inconclusive
-            out["inconclusive"].append("kx: kani produced no harness result (compile error in harness against the current tree?): " + text[-1500:])
-            return out
-        if "CBMC 6.11 / CaDiCaL (Kani 0.68)" not in cov["back_ends"]:
-            cov["back_ends"].append("CBMC 6.11 / CaDiCaL (Kani 0.68)")
-        for h in harnesses:
-            hr = res.get(h)
-            src, what, complete = HARNESSES[h]
-            if hr is None or hr["status"] is None:
-                out["inconclusive"].append("kx: no result for harness %s" % h)
-                continue
-            cov["obligations"] += max(hr["checks"], 1)
-            entry = {"harness": h, "appended_to": src, "proves": what, "checks": hr["checks"], "failed": hr["failed_n"],
-                     "status": hr["status"], "covers": hr["covers"], "complete": complete,
-                     "bound": "loops bounded by constants of the code (20 id bytes, 4/8/16 address bytes), unwinding assertions on; inputs fully symbolic"}
-            cov["kani_harnesses"].append(entry)
-            if hr["status"] == "SUCCESSFUL":
-                cov["discharged"] += max(hr["checks"], 1)
-                if hr["covers"] and hr["covers"][0] < hr["covers"][1]:
-                    out["inconclusive"].append("kx vacuity guard: cover! unreachable in %s" % h)
-                if len(cov["samples"]) < 8:
-                    cov["samples"].append({"harness": h, "obligation": what, "cbmc_checks": hr["checks"]})
-            else:
-                unwinding = [f for f in hr["failed"] if "unwinding assertion" in f]
-                real = [f for f in hr["failed"] if "unwinding assertion" not in f]
-                if unwinding and not real:
-                    out["inconclusive"].append("kx: unwinding bound too small for %s on the current tree" % h)
-                    continue
-                cov["discharged"] += max(hr["checks"] - hr["failed_n"], 0)
-                concrete = _playback(dst, h, env)
-                out["violations"].append({
-                    "obligation": "kx::%s#%s" % (h, (real[0] if real else "failed")[:80]),
-                    "message": "; ".join(real)[:400] or "verification failed",
-                    "engine": "kani", "rendered": "\n".join(hr["text"][-40:]), "changed": "", "concrete": concrete})
-        cov.setdefault("kani_wall_s", 0)
-        cov["kani_wall_s"] = round(time.time() - t0, 1)
     finally:
         shutil.rmtree(scratch, ignore_errors=True)
+
+
+def run_harnesses(pid, harnesses, tier, cov, cmds, scratch_root):
+    out = {"violations": [], "inconclusive": []}
+    t0 = time.time()
+    prefetch(harnesses, scratch_root)
+    if "CBMC 6.11 / CaDiCaL (Kani 0.68)" not in cov["back_ends"]:
+        cov["back_ends"].append("CBMC 6.11 / CaDiCaL (Kani 0.68)")
+    seen_cmd = set()
+    problems = set()
+    for h in harnesses:
+        c = _KCACHE[h]
+        if c["cmd"] and c["cmd"] not in seen_cmd:
+            cmds.append(c["cmd"])
+            seen_cmd.add(c["cmd"])
+        if c["problem"]:
+            problems.add(c["problem"])
+            continue
+        hr = c["hr"]
+        src, what, complete = HARNESSES[h]
+        cov["obligations"] += max(hr["checks"], 1)
+        entry = {"harness": h, "appended_to": src, "proves": what, "checks": hr["checks"], "failed": hr["failed_n"],
+                 "status": hr["status"], "covers": hr["covers"], "complete": complete,
+                 "bound": "loops bounded by constants of the code (20 id bytes, 4/8/16 address bytes, 8 bucket slots), unwinding assertions on; inputs fully symbolic"}
+        cov["kani_harnesses"].append(entry)
+        if hr["status"] == "SUCCESSFUL":
+            cov["discharged"] += max(hr["checks"], 1)
+            if hr["covers"] and hr["covers"][0] < hr["covers"][1]:
+                out["inconclusive"].append("kx vacuity guard: cover! unreachable in %s" % h)
+            if len(cov["samples"]) < 8:
+                cov["samples"].append({"harness": h, "obligation": what, "cbmc_checks": hr["checks"]})
+        else:
+            unwinding = [f for f in hr["failed"] if "unwinding assertion" in f]
+            real = [f for f in hr["failed"] if "unwinding assertion" not in f]
+            if unwinding and not real:
+                out["inconclusive"].append("kx: unwinding bound too small for %s on the current tree" % h)
+                continue
+            cov["discharged"] += max(hr["checks"] - hr["failed_n"], 0)
+            out["violations"].append({
+                "obligation": "kx::%s#%s" % (h, (real[0] if real else "failed")[:80]),
+                "message": "; ".join(real)[:400] or "verification failed",
+                "engine": "kani", "rendered": "\n".join(hr["text"][-40:]), "changed": "", "concrete": c["concrete"]})
+    for pr in sorted(problems):
+        out["inconclusive"].append(pr)
+    cov["kani_wall_s"] = round(time.time() - t0, 1)
     return out
 
 
